@@ -231,6 +231,9 @@ def check_C07(run):
                        "accepted position is re-examined by the executable Valid; non-trivial = malformed or wrap-relevant string")
     fens = [e["fen"] for e in P["pool"]]
     good = rng.sample(fens, min(len(fens), 1500 if th else 250))
+    # every FEN kept from a seeded change that carries castling rights is offered as well (thirteenth seed round: a parser change
+    # seen by C06 only, because this sample did not contain the position)
+    good += [e["fen"] for e in P["pool"] if e.get("cls") == "corpus" and e["fen"].split(" ")[2] != "-" and e["fen"] not in good]
     shred = []
     for f in good[: len(good) // 2]:
         p = f.split(" ")
